@@ -146,6 +146,7 @@ def mv_ops():
     return _MV_OPS
 
 
+NO_LIVE_PROBE_OPS = set()  # ops whose cases run for seconds / create 10^4 objects: the profiler-based probes skip them
 NO_THREAD_OPS = set()     # ops whose ADAPTER is not thread-safe (warnings.catch_warnings edits process-wide filters)
 
 
@@ -503,9 +504,10 @@ class Check:
                     if cases and not getattr(prop, "NO_LIVE_PROBE", False):
                         from harness import liveprobe
                         k = min(len(cases), getattr(prop, "LIVE_PROBE", {}).get(self.tier, 60 if self.tier == "quick" else 400))
-                        sample = rng.sample(cases, k)
+                        pool_ = [c_ for c_ in cases if c_[0] not in NO_LIVE_PROBE_OPS] or cases[:0]
+                        sample = rng.sample(pool_, min(k, len(pool_)))
                         for a_case in sample:
-                            b_case = a_case if rng.random() < 0.25 else rng.choice(cases)   # also the SAME call again (value-keyed caches)
+                            b_case = a_case if rng.random() < 0.25 else rng.choice(pool_)   # also the SAME call again (value-keyed caches)
                             r = liveprobe.probe_pair(prop.impl, a_case, b_case)
                             n_probe += 1
                             if r is not None:
@@ -519,7 +521,7 @@ class Check:
                     n_thr = 0
                     if cases and not fails and not getattr(prop, "NO_LIVE_PROBE", False):
                         from harness import liveprobe
-                        pool = [c for c in cases if c[0] not in NO_THREAD_OPS]
+                        pool = [c for c in cases if c[0] not in NO_THREAD_OPS and c[0] not in NO_LIVE_PROBE_OPS]
                         tsample = rng.sample(pool, min(len(pool), 12))
                         if len(tsample) >= 2:
                             n_thr = len(tsample)
@@ -718,9 +720,20 @@ def replay(prop, path):
             print("VIOLATION property=%s replay=%s" % (prop.ID, path))
             return 1
         return 0
-    ires = run_impl(prop.impl, c[0], c[1])
+    # the run passes plain ints for enums in every 5th case and positional arguments in every 7th: replay the
+    # case under each calling style until one fails
     chk = Check(prop, "quick", payload.get("seed", 0))
-    fails = chk.run_oracle([(c, ires)])
+    fails, ires = [], None
+    for plain, positional in ((False, False), (True, False), (False, True), (True, True)):
+        globals()["PLAIN_INTS"], globals()["POSITIONAL"] = plain, positional
+        try:
+            ires = run_impl(prop.impl, c[0], c[1])
+        finally:
+            globals()["PLAIN_INTS"], globals()["POSITIONAL"] = False, False
+        fails = chk.run_oracle([(c, ires)])
+        if fails:
+            print("replay calling style: plain ints for enums=%s, positional arguments=%s" % (plain, positional))
+            break
     print("replay op=%d args=%s -> impl=%s" % (c[0], c[1], ires))
     for f in fails:
         print("VIOLATION property=%s replay=%s" % (prop.ID, path))
